@@ -2,7 +2,10 @@ module verif/harness
 
 go 1.18
 
-require github.com/alpacahq/marketstore/v4 v4.0.0
+require (
+	github.com/alpacahq/marketstore/v4 v4.0.0
+	go.uber.org/zap v1.15.0
+)
 
 require (
 	github.com/alpacahq/rpc v1.3.0 // indirect
@@ -20,7 +23,6 @@ require (
 	github.com/vmihailenco/msgpack v4.0.4+incompatible // indirect
 	go.uber.org/atomic v1.6.0 // indirect
 	go.uber.org/multierr v1.5.0 // indirect
-	go.uber.org/zap v1.15.0 // indirect
 	golang.org/x/net v0.0.0-20220722155237-a158d28d115b // indirect
 	golang.org/x/sys v0.0.0-20220722155257-8c9f86f7a55f // indirect
 	golang.org/x/text v0.3.7 // indirect
